@@ -134,3 +134,43 @@ def model_check(spec: SystemSpec, tag="ensmc", timeout=900):
                     "PROPERTY OnlyCompleteMembers\nPROPERTY AccumulatesMemberMass\nPROPERTY ImplementsFirstCrossing\nPROPERTY Termination\n")
         r = run_tlc(d, "MC", cfg=cfg, workers=2, timeout=timeout, xmx="3g")
     return r
+
+
+def export_behaviours(spec: SystemSpec, tag="ensmch", timeout=300, simulate=None):
+    """TLC on EnsembleMCH: decision histories of the terminal states of the ensemble machine."""
+    import re as _re
+    comps, fixed = spec.constants()
+    with common.Scratch(tag) as d:
+        with open(os.path.join(d, "MC.tla"), "w") as f:
+            f.write("---- MODULE MC ----\nEXTENDS EnsembleMCH\n")
+            f.write("MCComps == " + tla(comps) + "\n")
+            f.write(f"MCSysMass == {int(round(spec.S * 1000))}\n====\n")
+        cfg = os.path.join(d, "MC.cfg")
+        with open(cfg, "w") as f:
+            f.write("SPECIFICATION HSpec\nCONSTANTS\n Comps <- MCComps\n SysMass <- MCSysMass\nINVARIANT HExport\n")
+            if not simulate:
+                f.write("VIEW HView\n")
+        extra = ["-simulate", f"num={simulate[0]}", "-depth", str(simulate[1]), "-seed", str(common.seed() + 5)] if simulate else []
+        r = run_tlc(d, "MC", cfg=cfg, workers=1, timeout=timeout, xmx="3g", extra=extra)
+        if simulate:
+            r.ok = r.invariant_violated() is None and "Error:" not in r.out
+    seen, out = set(), []
+    for b in r.printed:
+        if "hist" in b:
+            key = json.dumps(b["hist"])
+            if key not in seen:
+                seen.add(key)
+                out.append(b)
+    return out, r
+
+
+def replay_behaviours(sysobj, behs):
+    """System.generator stepped through behaviours of the specification -> one tree of what the code did"""
+    tree = X.Tree()
+    for b in behs:
+        script = [int(h[1]) for h in b["hist"] if h[0] == "c"]
+        forced = [(int(h[1]) + 0.5) / 1000.0 for h in b["hist"] if h[0] == "d"]
+        steps, obs = X.run_scripted(sysobj, script, projector=stop_projector, call=iterate_call, forced=forced)
+        steps = [(ev, used if used or ev["kind"] != "draw" else [("t", ev["t"])], alts) for ev, used, alts in steps]
+        tree.add_run(steps, obs)
+    return tree
